@@ -395,6 +395,41 @@ def config_stream(run_, ctx, rng, keep):
     cf = C.Configs(run_.jinja2)
     run_.ext_env = ext_env(run_.jinja2)
     ctx.extra["configurations"] = {"explored": C.NAMES, "excluded": C.EXCLUDED}
+    # a FIXED set first, under EVERY configuration on every run (not subject to sampling): loops with a filter whose
+    # iterable mentions the name of the loop target (top level, nested, over a macro parameter, tuple target, in a
+    # call block), judged by the reference O2 and compared across configurations
+    _o = lambda *es: ("out", list(es))      # noqa
+    fixed = [
+        ([("for", "a", ("n", "a"), ("n", "a"), [_o(("s", "["), ("n", "a"), ("s", "]"))], []), _o(("s", "|"), ("n", "a"))], {"a": ("plain", [1, 0, 2])}),
+        ([("for", "b", ("n", "c"), None, [("for", "b", ("n", "b"), ("n", "b"), [_o(("n", "b"), ("attr", "loop", "index"))], [_o(("s", "e"))])], [])],
+         {"c": ("plain", [[1, 0], [0], [2, 3]])}),
+        ([("macro", "m", ["a"], [("for", "a", ("n", "a"), ("n", "a"), [_o(("n", "a"))], [_o(("s", "none"))])]), ("callo", "m", [("n", "c")]),
+          ("callo", "m", [("n", "b")])], {"c": ("plain", [3, 0, 4]), "b": ("plain", [0])}),
+        ([("for", ["a", "b"], ("n", "a"), ("n", "b"), [_o(("n", "a"), ("n", "b"))], [])], {"a": ("plain", [[1, 2], [3, 0], [5, "q"]])}),
+        ([("macro", "m", [], [("callo", "caller", [("n", "c")])]),
+          ("callb", ["a"], "m", [], [("for", "a", ("n", "a"), ("attr", "loop", "length"), [_o(("n", "a"))], [])])], {"c": ("tuple", ["p", "q"])}),
+        ([("for", "a", ("n", "a"), ("n", "a"), [_o(("n", "a")), ("if", ("n", "a"), [("continue",)], [], []), _o(("s", "x"))], [])],
+         {"a": ("oneshot", [2, 0, 1])}),
+    ]
+    for p, ds in fixed:
+        base, src = ext_judge(ctx, run_.ext_env, p, ds, kind="ext-fixed")
+        if base is None:
+            continue
+        mk = lambda: R.make_data(ds)      # noqa
+        for name in C.NAMES:
+            want = C.comparable(name, R.norm_obs(base), src)
+            if want is None:
+                continue
+            got = R.norm_obs(cf.render(name, src, mk))
+            if got[0] == "skip":
+                continue
+            ctx.case()
+            ctx.count("config_fixed_" + name)
+            if got != want:
+                ctx.reject({"prog_repr": repr(p), "dspec_repr": repr(ds), "src": src, "kind": "config", "config": name},
+                           f"configuration {name} changes the result: default {want!r}, {name} {got!r}", None)
+            else:
+                ctx.validated()
     n = ctx.size(650, 6000)
     for i in range(min(n, len(keep))):
         p, ds, src, base = keep[rng.randrange(len(keep))]
